@@ -125,6 +125,34 @@ class FsmFacts:
                         hc = ctx.handler_classes(prod, h)
                         if any(ctx.is_sub("ramses_tx.exceptions.PacketInvalid", c) for c in hc) and any(isinstance(s_, ast.Raise) for s_ in ast.walk(ast.Module(body=h.body, type_ignores=[]))):
                             fenced.append(t)
+        if not fenced and prod is not sc:
+            # the fence may have stayed in send_cmd, in front of the call of the private producer: the argument that becomes the
+            # producer's entry parameter must have been read under the fence before the call
+            pparams = [a0.arg for a0 in prod.node.args.args]
+            if pparams and pparams[0] in ("self", "cls"):
+                pparams = pparams[1:]
+            cfg_sc = ctx.plain_cfg(sc)
+            calls_p = [c for c in own_nodes(sc.node) if isinstance(c, ast.Call) and isinstance(c.func, ast.Attribute) and c.func.attr == prod.name and norm(c.func.value) == "self"]
+            ok_all = bool(calls_p)
+            for c in calls_p:
+                amap = {pn: norm(a0) for pn, a0 in zip(pparams, c.args)}
+                amap.update({k.arg: norm(k.value) for k in c.keywords if k.arg})
+                passed = {amap[nm] for nm in in_entry if nm in amap}
+                fenced_sc = []
+                for t in own_nodes(sc.node):
+                    if isinstance(t, ast.Try):
+                        attrs = {(norm(x.value), x.attr) for bnode in t.body for x in ast.walk(bnode) if isinstance(x, ast.Attribute) and x.attr in ("tx_header", "rx_header")}
+                        if any((nm, "tx_header") in attrs and (nm, "rx_header") in attrs for nm in passed):
+                            for h in t.handlers:
+                                hc = ctx.handler_classes(sc, h)
+                                if any(ctx.is_sub("ramses_tx.exceptions.PacketInvalid", c0) for c0 in hc) and any(isinstance(s_, ast.Raise) for s_ in ast.walk(ast.Module(body=h.body, type_ignores=[]))):
+                                    fenced_sc.append(t)
+                reads_sc = [x for x in cfg_sc.nodes if x.kind == "stmt" and x.ast is not None and any(x.ast is b0 for t in fenced_sc for b0 in t.body)]
+                call_nodes = [x for x in cfg_sc.nodes if x.kind == "stmt" and x.ast is not None and any(c is y for y in ast.walk(x.ast))]
+                if not (reads_sc and call_nodes and all(any(r.id in cfg_sc.dominators().get(cn.id, set()) for r in reads_sc) for cn in call_nodes)):
+                    ok_all = False
+            if ok_all:
+                return True
         if not fenced:
             self.notes.append(f"{prod.short} does not read the command's tx_header/rx_header under a PacketInvalid fence before queueing")
             return False
@@ -168,6 +196,8 @@ class FsmFacts:
                                     p = getattr(p, "parent", None)
                                 node = cfg.nodes_of(p)[0] if p is not None else None
                                 doms = cfg.dominated_by(node, lambda x: x.ast is not None and x.kind in ("test", "stmt") and "pkt._hdr" in norm(x.ast)) if node is not None else []
+                                if not doms and node is not None:
+                                    doms = self._hdr_read_in_predicate(g, cfg, node)
                                 if not doms:
                                     self.notes.append(f"{g.short}: set_state(result=pkt) is not dominated by a read of pkt._hdr")
                                     ok = False
@@ -183,6 +213,47 @@ class FsmFacts:
                     self.notes.append(f"{g.short}: {norm(n)} stores something other than a received pkt")
                     ok = False
         return ok
+
+    def _hdr_read_in_predicate(self, g: FuncInfo, cfg: Any, node: Any) -> list:
+        """The packet's header was read inside a predicate method of the same class whose *true* outcome dominates `node`:
+        `if self._is_x(.., pkt): ... set_state(result=pkt)` where every truthy return of _is_x lies behind a read of <param>._hdr."""
+        ctx = self.ctx
+        out = []
+        if g.cls is None:
+            return out
+        for t in cfg.nodes:
+            if t.kind != "test" or t.ast is None or not cfg.edge_dominates(t, "true", node):
+                continue
+            tt = t.ast
+            if not (isinstance(tt, ast.Call) and isinstance(tt.func, ast.Attribute) and norm(tt.func.value) == "self"):
+                continue
+            h = next((k.methods[tt.func.attr] for k in g.cls.mro if tt.func.attr in k.methods), None)
+            if h is None or h.is_async:
+                continue
+            params = [a.arg for a in h.node.args.args]
+            if params and params[0] in ("self", "cls"):
+                params = params[1:]
+            q = next((pn for pn, a in zip(params, tt.args) if norm(a) == "pkt"), None)
+            if q is None:
+                continue
+            hcfg = ctx.plain_cfg(h)
+            rets = [x for x in hcfg.nodes if x.kind == "stmt" and isinstance(x.ast, ast.Return) and not (x.ast.value is None or (isinstance(x.ast.value, ast.Constant) and not x.ast.value.value))]
+            def read_before(r: Any) -> bool:
+                for y in hcfg.nodes:
+                    if y.ast is None or f"{q}._hdr" not in norm(y.ast):
+                        continue
+                    if y.kind == "stmt" and y.id in hcfg.dominators().get(r.id, set()) and y.id != r.id:
+                        return True
+                    if y.kind == "test":
+                        full = "false" if isinstance(y.ast, ast.BoolOp) and isinstance(y.ast.op, ast.Or) else "true" if isinstance(y.ast, ast.BoolOp) else None
+                        if full is None and y.id in hcfg.dominators().get(r.id, set()):
+                            return True
+                        if full is not None and hcfg.edge_dominates(y, full, r):
+                            return True
+                return False
+            if rets and all(read_before(r) for r in rets):
+                out.append(t)
+        return out
 
     # -- the hook -----------------------------------------------------------------------------
 
